@@ -13,6 +13,7 @@ if [ "$BASE" = "/tmp/seed4" ]; then if [ "$V" = "A" ]; then OUTV=G; else OUTV=H;
 if [ "$BASE" = "/tmp/seed5" ]; then if [ "$V" = "A" ]; then OUTV=I; else OUTV=J; fi; fi
 if [ "$BASE" = "/tmp/seed6" ]; then if [ "$V" = "A" ]; then OUTV=K; else OUTV=L; fi; fi
 if [ "$BASE" = "/tmp/seed7" ]; then if [ "$V" = "A" ]; then OUTV=M; else OUTV=N; fi; fi
+if [ "$BASE" = "/tmp/seed8" ]; then if [ "$V" = "A" ]; then OUTV=O; else OUTV=P; fi; fi
 WT=/tmp/sv-$P-$V
 rm -rf $WT; git -C /repo worktree add -q $WT HEAD || exit 2
 trap 'git -C /repo worktree remove --force '$WT' >/dev/null 2>&1' EXIT
